@@ -10,7 +10,7 @@
    history (the order of operations by which the object was built).
 
    State:  key   partial function  m -> digest  (the database key observed for that content)
-           seen  all observations [m, p, r, s, e, d, label, proc, seed, hist, k]
+           seen  the observations [m, p, r, s, e, d, label, proc, seed, hist, k] (first one per content, label and digest)
            trips round trips observed [via, cin, cout]
    Actions:
      Key(proc, seed, hist, label, sigma, k)   a process computed the content hash k of a model of content
@@ -53,8 +53,13 @@ InjectiveG(sigma, k) == \A o \in seen : Listed(o, sigma) => o.k # k
 
 Key(proc, seed, hist, label, sigma, k) ==
     /\ Cardinality(seen) < MaxObs
-    /\ seen' = seen \cup {[m |-> sigma.m, p |-> sigma.p, r |-> sigma.r, s |-> sigma.s, e |-> sigma.e, d |-> sigma.d,
-                          label |-> label, proc |-> proc, seed |-> seed, hist |-> hist, k |-> k]}
+    \* the first observation of every (content, label-or-not, digest) combination is kept (later identical ones add nothing
+    \* to the invariants; this keeps the state small when thousands of real observations are validated)
+    /\ seen' = IF \E o \in seen : o.m = sigma.m /\ o.p = sigma.p /\ o.r = sigma.r /\ o.s = sigma.s /\ o.e = sigma.e /\ o.d = sigma.d
+                                   /\ o.k = k /\ o.label = label
+               THEN seen
+               ELSE seen \cup {[m |-> sigma.m, p |-> sigma.p, r |-> sigma.r, s |-> sigma.s, e |-> sigma.e, d |-> sigma.d,
+                                label |-> label, proc |-> proc, seed |-> seed, hist |-> hist, k |-> k]}
     /\ key' = IF sigma.m \in DOMAIN key THEN key ELSE [x \in DOMAIN key \cup {sigma.m} |-> IF x = sigma.m THEN k ELSE key[x]]
     /\ UNCHANGED trips
 
